@@ -128,7 +128,7 @@ def _show_case(g, v):
     return (' && '.join(T.show(T.le0(x)) for x in g) or 'always') + ' => ' + T.show(v)
 
 
-def _judge(rep, rule, key, where, fn, res, what, law, why):
+def _judge(rep, rule, key, where, fn, res, what, law, why, direction=None):
     ok, info = res
     if ok:
         rep.ok(rule, key, where, f'{what}: proved for all inputs ({info} feasible case combination(s), linear entailment with quotient/remainder facts)',
@@ -136,7 +136,7 @@ def _judge(rep, rule, key, where, fn, res, what, law, why):
     else:
         g1, v1, g2, v2 = info
         rep.bad(rule, key, where, f'{what}: not entailed in the case  [{_show_case(g1, v1)[:300]}]  vs  [{_show_case(g2, v2)[:300]}]',
-                law, fn=fn, why=why)
+                law, fn=fn, why=why, direction=direction)
 
 
 SUPPLIES = {
@@ -222,7 +222,7 @@ def check_supply_laws(rep, crate, sib_only=False):
                'service_time(d) is long enough', 'a shorter service_time makes every response-time bound optimistic (unsafe)')
         _judge(rep, 'SUP-INV', f'SUP-INV:{name}:least', wst, m['st'], least, 'provided_service(service_time(d) - 1) <= d - 1 for d >= 1',
                'service_time(d) is the smallest such t (with SUP-LIP: provided_service is non-decreasing)',
-               'a longer service_time is pessimistic and breaks exactness (C06/C07)')
+               'a longer service_time is pessimistic and breaks exactness (C06/C07)', direction='pessimistic-only: service_time longer than necessary')
         n += 6
     # reductions between the models
     if 'Constrained' in fields and 'Periodic' in fields and 'Constrained' in wf and 'Periodic' in wf and 'deadline' in fields['Constrained']:
@@ -296,20 +296,24 @@ def check_arrival_laws(rep, crate):
                    'number_arrivals(delta + 1) >= number_arrivals(delta)', 'non-decreasing in the interval length',
                    'a decreasing arrival bound undercounts longer windows (unsafe)')
             total = T.add(ARG, jit)
-            res = LA.holds_all(cs, wf + [T.sub(T.const(1), ARG)],
-                               lambda v: [T.sub(LA.times(v, per), total),
-                                          T.sub(T.sub(total, T.const(1)), LA.times(T.sub(v, T.const(1)), per))])
-            if res[0]:
-                rep.ok('ARR-CEIL', f'ARR-CEIL:{name}', where,
-                       f'for delta >= 1: n * T >= delta + J and (n - 1) * T <= delta + J - 1 with n = number_arrivals(delta), T = {T.show(per)}, J = {T.show(jit)}: '
-                       f'proved for all inputs ({res[1]} feasible case combination(s))',
-                       'number_arrivals(delta) = ceil((delta + J) / T), the least n with n * T >= delta + J', fn=m['n'])
-            else:
-                g, v, _, goal = res[1]
-                rep.bad('ARR-CEIL', f'ARR-CEIL:{name}', where, f'in the case [{_show_case(g, v)[:300]}] the inequality {T.show(goal)[:160]} >= 0 is not entailed',
-                        'number_arrivals(delta) = ceil((delta + J) / T) for delta >= 1', fn=m['n'],
-                        why='a smaller value undercounts (unsafe: up to ceil((delta+J)/T) events fit into a window of length delta); a larger one is pessimistic and not attained')
-            n += 3
+            A1 = wf + [T.sub(T.const(1), ARG)]
+            for side, goal, law, direction, why in (
+                    ('covers', lambda v: [T.sub(LA.times(v, per), total)], 'n * T >= delta + J',
+                     'under: fewer arrivals than fit into the window',
+                     'up to ceil((delta+J)/T) events fit into a window of length delta (first event maximally delayed, the others as early as possible): a smaller value undercounts (unsafe)'),
+                    ('least', lambda v: [T.sub(T.sub(total, T.const(1)), LA.times(T.sub(v, T.const(1)), per))], '(n - 1) * T <= delta + J - 1',
+                     'pessimistic-only: more arrivals than can occur',
+                     'a larger value is safe but not attained (C10 "moreover attained", C18)')):
+                res = LA.holds_all(cs, A1, goal)
+                if res[0]:
+                    rep.ok('ARR-CEIL', f'ARR-CEIL:{name}:{side}', where,
+                           f'for delta >= 1: {law} with n = number_arrivals(delta), T = {T.show(per)}, J = {T.show(jit)}: proved for all inputs ({res[1]} feasible case combination(s))',
+                           'number_arrivals(delta) = ceil((delta + J) / T), the least n with n * T >= delta + J', fn=m['n'])
+                else:
+                    g, v, _, gl = res[1]
+                    rep.bad('ARR-CEIL', f'ARR-CEIL:{name}:{side}', where, f'in the case [{_show_case(g, v)[:300]}] {law} is not entailed',
+                            'number_arrivals(delta) = ceil((delta + J) / T) for delta >= 1', fn=m['n'], direction=direction, why=why)
+            n += 4
         except AnchorMissing as ex:
             rep.bad('ANCHOR', f'ANCHOR:ARR:{name}', m['n'], ex.what, fn=m['n'], why='fail closed')
     return n
